@@ -41,7 +41,7 @@ def run_shared(chk, tier, own):
         if own in ("C11", "C12"):
             # the same writer used from several threads at once: every file is still the layout of its own data (and its
             # size field that of its own payload - a smaller one would let torn prefixes pass)
-            ccases = [c for c in indx.gen_file_cases(tier, core.SEED + 4) if len(c[2]) >= 1][:: 3][: (400 if tier == "quick" else 4000)]
+            ccases = [c for c in indx.gen_file_cases(tier, core.SEED + 4) if len(c[2]) >= 1][:: 3][: (400 if tier == "quick" else 4000)] * (6 if tier == "quick" else 3)
             for ev, (arity, common, ents) in zip(indx.concurrent_file_events(IndxIO, ccases, str(wd), tid), ccases):
                 tid = ev["tid"]
                 events.append(ev)
